@@ -20,7 +20,7 @@ def build(ctx, section):
     exe, log = ctx.cc('pure', SRC(), FLAGS() + ['-D' + section])
     fast, log2 = ctx.cc('pure_fast', SRC(), FLAGS() + ['-O2', '-D' + section], san=False)
     if not exe or not fast:
-        raise vlib.Infra('pure harness does not compile against /repo: ' + (log + log2)[-1500:])
+        raise vlib.Unbuildable('pure harness does not compile against /repo: ' + (log + log2)[-1500:])
     return exe, fast
 
 
